@@ -22,6 +22,7 @@ class checkpoint(Flow):
         if not steps:
             steps = []
         super().__init__(*steps)
+        self.own_steps = tuple(steps)
         self.checkpoint_name = checkpoint_name
         self.checkpoint_path = os.path.join(checkpoint_path, checkpoint_name)
         self.resources = resources
@@ -43,5 +44,7 @@ class checkpoint(Flow):
                                                 _notify_checkpoint_saved(self.checkpoint_name)))
 
     def handle_flow_checkpoint(self, parent_chain):
-        self.chain = itertools.chain(self.chain, parent_chain)
+        # the enclosing Flow may be run again: every run starts from the checkpoint's own steps
+        # (what was handed over before a run that resumed from the file has not been consumed)
+        self.chain = itertools.chain(self.own_steps, parent_chain)
         return [self]
